@@ -656,7 +656,7 @@ func (e *Engine) foldPhi(x *ssa.Phi, ctx *Ctx) *Term {
 	}
 	it := StripConv(cond.Args[0])
 	n, okN := constInt(StripConv(cond.Args[1]))
-	if it.Op != OpIter || len(it.Args) != 2 || !it.Args[0].IsConst("0") || !it.Args[1].IsConst("1") || !okN || n < 0 || n > 32 {
+	if it.Op != OpIter || len(it.Args) != 2 || !it.Args[0].IsConst("0") || !it.Args[1].IsConst("1") || !okN || n < 0 || n > 32 || !IsSeqLen(cond.Args[1]) {
 		return nil
 	}
 	k := evalKey{x, ctx}
